@@ -452,6 +452,7 @@ package gojq
 //@   requires !l.inString ==> start + 1 == l.offset
 //@   requires !l.inString ==> l.source[start] == '"'
 //@   modifies l.offset, l.token, l.inString, HC_bool, HC_int
+//@   property C08 C17
 //@   loop 1 use ctl_gap(l.source, i, i + 2)
 //@   loop 1 use ctl_gap(l.source, i, i + 6)
 //@   loop 1 use ctl_sub(l.source, start, i, i - start)
@@ -459,6 +460,7 @@ package gojq
 //@   loop 1 invariant i <= len(l.source) ==> controls == ctl(l.source, i) - ctl(l.source, start)
 //@   loop 2 invariant 1 <= j && i + j <= len(l.source) && 1 <= i
 //@   loop 2 invariant forall k :: {l.source[i+k]} 1 <= k && k < j ==> l.source[i+k] >= 48
+//@   property C17
 //@   ensures tok >= 128 && tokenSpan(l, tok)
 
 //@ func (*lexer).Lex$1()
